@@ -265,7 +265,10 @@ def display_image(im, scaling='auto', vert_axis='x', horiz_axis='y',
     if scaling is not None:
         im = np.maximum(im, scaling[0])
         im = np.minimum(im, scaling[1])
-        im = (im-scaling[0])/(scaling[1]-scaling[0])
+        im = im-scaling[0]
+        if scaling[1] != scaling[0]:
+            # (a constant image has no range to normalize by)
+            im = im/(scaling[1]-scaling[0])
     im.attrs = attrs
     im.attrs['_image_scaling'] = scaling
 
